@@ -91,6 +91,16 @@ def run_core(prop, tier, seed, t0, cfgname='TraceCore.cfg'):
     for name, nq, nt in spec['profiles']:
         segs += gen_scripts.gen(name, nq if tier == 'quick' else nt, seed)
     segs += fixed_segments(prop)
+    exhaustive_note = []
+    for fn in gen_scripts.EXHAUSTIVE.get(prop, []):
+        xs = fn()
+        if tier == 'quick' and len(xs) > 2500:
+            import random as _r
+            xs = _r.Random(seed).sample(xs, 2500)
+            exhaustive_note.append('%s: %d of the enumerated histories (seeded sample; all of them in the thorough tier)' % (fn.__name__, len(xs)))
+        else:
+            exhaustive_note.append('%s: all %d histories - %s' % (fn.__name__, len(xs), ' '.join(fn.__doc__.split())))
+        segs += xs
     td_mc = None
     if prop == 'C14':
         td, td_mc = teardown_segments(tier, seed)
@@ -147,6 +157,12 @@ def run_core(prop, tier, seed, t0, cfgname='TraceCore.cfg'):
         nviol += 1
     for kid, (k, sid) in known_hits.items():
         print('KNOWN-FINDING: property=%s %s (%s; e.g. segment %s)' % (prop, k['id'], k['what'], sid))
+    # ---- binding self-test (thorough tier of C01): tampered traces must be rejected by the validator
+    if prop == 'C01' and tier == 'thorough':
+        import selftest
+        if selftest.main(seed) != 0:
+            print('CHECK-ERROR property=C01 binding self-test failed: a tampered trace was accepted by the validator')
+            return 2
     # ---- model checking part
     mc = run_mc(spec.get('mc'), tier, work, prop)
     if mc.get('error'):
@@ -176,6 +192,8 @@ def run_core(prop, tier, seed, t0, cfgname='TraceCore.cfg'):
                     % [p[0] for p in spec['profiles']],
                samples=samples, model_checking=mc.get('summary', {}), exhaustive=False,
                sanitizers='ASan+UBSan+LSan, TROMPELOEIL_SANITY_CHECKS', tree=lib.tree_hash())
+    if exhaustive_note:
+        cov['exhaustive_subspaces'] = exhaustive_note
     if td_mc:
         cov['teardown_orders_generated_by_TLC'] = td_mc
         cov['states'] = cov.get('states', 0) + sum(x['distinct'] for x in td_mc)
